@@ -35,6 +35,7 @@ COQ_DIR = os.path.join(C.VERIF, 'c18', 'coq')
 COQ_LOGICAL = '-R %s/coq AwkV -R . AwkVirt' % C.VERIF
 NEEDS_SAN = True
 DRIVERS = ('virtdrv',)
+PY_HALF = True     # harness/pyhalves.py cases_C18: the Python layer (partition.py, operations/*.py) on ak.partitioned arrays vs the eager array
 RULE = ('virt sessions: value-first random layout (all node classes) with 1-2 non-nested nodes replaced by a '
         'VirtualArray; generator script per invocation (ok / throws / short payload / payload of another form), '
         'declared length (none / true / too large / too small) and form (none / right / wrong); cache none / keep / '
